@@ -118,6 +118,11 @@ def run_check(pid, tier, seed):
             tie.append(("proof", plog))
         nobl, names = core.count_obligations(os.path.join("Props", pid + ".v"))
         pa = core.print_assumptions(pid) if proved else {}
+        chk = None
+        if proved and tier == "thorough":
+            ok_chk, chk = core.coqchk(pid)
+            if not ok_chk:
+                tie.append(("coqchk", "\n".join(chk)))
         ok, msg = core.step_harness()
         harness_ok = ok
         if not ok:
@@ -215,6 +220,8 @@ def run_check(pid, tier, seed):
               "Go harness injected with go build -tags verif -overlay (no change to /repo)"]
         for t, a in sorted(pa.items()):
             tb.append("Print Assumptions %s: %s" % (t, a or "?"))
+        if chk is not None:
+            tb.append("coqchk -silent -o SA.Props.%s: %s" % (pid, "; ".join(chk)))
         tb += getattr(mod, "TRUSTED", [])
         cov = {
             "obligations": max(nobl, 1),
